@@ -3,6 +3,7 @@ package absint
 import (
 	"fmt"
 	"os"
+	"time"
 	"go/constant"
 	"go/token"
 	"go/types"
@@ -205,6 +206,7 @@ type Hooks struct {
 	MapUpdate func(x *Exec, s *State, in *ssa.MapUpdate, m, k, v Value)
 	Send      func(x *Exec, s *State, in *ssa.Send, ch, v Value)
 	Deref     func(x *Exec, s *State, in ssa.Instruction, ptr Value) // load/field access through a possibly-nil pointer
+	Load      func(x *Exec, s *State, in *ssa.UnOp, addr, val Value)
 	Inline    func(callee *ssa.Function, depth int) bool
 	Enter     func(x *Exec, s *State, fn *ssa.Function)
 	BackEdge  func(x *Exec, s *State, f *Frame, header *ssa.BasicBlock) // a loop iteration of frame f ended
@@ -218,6 +220,7 @@ type Exec struct {
 	Prog      *ssa.Program
 	MaxDepth  int
 	MaxStates int
+	MaxWall   time.Duration // wall-clock budget of one Run (0 = none)
 	Unroll    int // loop iterations explored exactly before the loop head is widened
 	Widen     bool // generalise everything a loop changed in one step (faster, coarser) instead of joining arrivals
 	Hooks     Hooks
@@ -247,7 +250,7 @@ type Exec struct {
 }
 
 func New(prog *ssa.Program, inScope func(*ssa.Function) bool) *Exec {
-	return &Exec{Prog: prog, InScope: inScope, MaxDepth: 5, MaxStates: 200000, Unroll: 1,
+	return &Exec{Prog: prog, InScope: inScope, MaxDepth: 5, MaxStates: 200000, MaxWall: 45 * time.Second, Unroll: 1,
 		domains: map[string][]string{}, locID: map[string]string{}, LocOf: map[string]string{}, live: map[*ssa.Function]map[*ssa.BasicBlock]map[ssa.Value]bool{}}
 }
 
@@ -300,6 +303,7 @@ func (x *Exec) Run(s *State) []Terminal {
 	x.terms = nil
 	x.termKey = map[string]bool{}
 	x.work = []*State{s}
+	start := time.Now()
 	if x.Hooks.Enter != nil {
 		x.Hooks.Enter(x, s, s.top().Fn)
 	}
@@ -311,6 +315,11 @@ func (x *Exec) Run(s *State) []Terminal {
 		if x.States > x.MaxStates {
 			x.Exhausted = true
 			x.problem("state budget of %d exceeded", x.MaxStates)
+			break
+		}
+		if x.MaxWall > 0 && time.Since(start) > x.MaxWall {
+			x.Exhausted = true
+			x.problem("time budget of %s exceeded after %d states", x.MaxWall, x.States)
 			break
 		}
 	}
@@ -1809,6 +1818,14 @@ func (x *Exec) step(s *State, f *Frame, in ssa.Instruction) bool {
 		case token.MUL:
 			x.derefCheck(s, in, xv)
 			f.Env[in] = x.load(s, xv, in.Type())
+			if x.Hooks.Load != nil {
+				av := xv
+				switch p := xv.(type) {
+				case Sym, *Term:
+					av = Ptr{Loc: "L:" + p.Key()}
+				}
+				x.Hooks.Load(x, s, in, av, f.Env[in])
+			}
 		case token.NOT:
 			if b, ok := asBool(xv); ok {
 				f.Env[in] = boolConst(!b)
